@@ -1,13 +1,20 @@
-"""C19, LAPACK and generic-product wrappers: grammar-based argument fuzzing in the guard-page build.
+"""C19, LAPACK wrappers.
 
-The keyword lists, argument formats and option characters of every wrapper are read from /repo/src/C/lapack.c on every run; calls are
-generated from them (matrices of plausible and implausible shapes and typecodes, small integers for every integer keyword, every option
-character) and executed in a crash-safe worker whose allocator puts a PROT_NONE page right after every buffer.  A call must either raise
-or return; a fault is an access outside the buffers of its arguments."""
+T  The argument-checking prefix of every wrapper of /repo/src/C/lapack.c is regenerated into Lean (Gen/LapackWrap.lean) on every run and
+   the theorem `accept -> every array the routine touches is a matrix of the right element type that contains the routine's footprint`
+   is re-proved per routine (Gen/C19SafeL_*.lean, statements from tools/translate/footprints_lapack.py).
+C  Grammar-based calls (keyword lists, formats and option characters are read from the source): the decision of the generated checks is
+   compared with the real wrapper (`reject X` must raise X, `none` must return, `call` must not fault), executed in a crash-safe worker
+   whose allocator puts a PROT_NONE page (behind a small canary slack) after every buffer.  The same lines go through the Lean functions
+   (Drivers/C19L.lean) so that the Python evaluation of the parsed checks and the generated Lean text are tied as well.
+   The C-int (wrap-around) evaluation of the same checks is searched for accepted tuples that the ideal evaluation rejects."""
 import os, re, json, random, subprocess, sys
 import vlib
+sys.path.insert(0, os.path.join(vlib.VERIF, 'tools', 'translate'))
 
-SKIP = {'larfg', 'larfx'}          # scalar-reflector helpers with in/out scalar conventions of their own
+SKIP = {'larfg', 'larfx'}          # scalar-reflector helpers with in/out scalar conventions of their own (theorems only)
+SLACK = '64'            # canary bytes between a buffer and its guard page
+WIDE = '65536'
 
 def signatures():
     s = open(os.path.join(vlib.REPO, 'src', 'C', 'lapack.c')).read()
@@ -23,51 +30,137 @@ def signatures():
         fmt = (fmt[0] if fmt else fm[0]).replace('|', '')
         req = fm[0].index('|') if '|' in fm[0] else len(fmt)
         chars = {k: re.findall(r"'(\w)'", v) for k, v in re.findall(r'err_char\("(\w+)",\s*"([^"]*)"\)', body)}
-        if len(fmt) != len(names): continue
-        out[name] = {'names': names, 'fmt': fmt, 'required': req, 'chars': chars}
+        # keyword -> C variable (order of the &var arguments of the first parse call)
+        m = re.search(r'PyArg_ParseTupleAndKeywords\(args, kwrds,\s*"[^"]*",\s*kwlist,(.*?)\)\)', body, flags=re.S)
+        cvars = [v.strip().lstrip('&') for v in m.group(1).split(',')]
+        cvars = [v[:-1] if v.endswith('_') else v for v in cvars]
+        if len(fmt) != len(names) or len(cvars) != len(names): continue
+        out[name] = {'names': names, 'fmt': fmt, 'required': req, 'chars': chars, 'cvar': dict(zip(names, cvars))}
     return out
 
 INTVALS = [-1, 0, 0, 1, 1, 2, 2, 3, 3, 4, 5, 7]
 
 def gen_case(rng, name, sig, cid):
-    """a call description: every 'O' argument gets a matrix spec (tc, rows, cols) or None, ints and chars are given or omitted"""
-    n = rng.choice([0, 1, 2, 3, 3, 4]); k = rng.choice([0, 1, 2, 3]); m = n if rng.random() < 0.6 else rng.choice([0, 1, 2, 3, 4, 5])
+    """a call description: every 'O' argument gets a matrix spec (tc, rows, cols), a non-matrix object or is omitted; ints and chars are
+    given or omitted.  Half of the calls are `documented` ones (consistent shapes and typecodes, dimensions omitted or equal to the shapes,
+    leading dimensions omitted or a little larger than needed): most of them pass the checks and reach LAPACK; the other half perturbs
+    shapes, typecodes and every integer keyword independently."""
+    valid = rng.random() < 0.5
+    n = rng.choice([0, 1, 2, 3, 3, 4]) if not valid else rng.choice([1, 2, 3, 3, 4, 5]); k = rng.choice([0, 1, 2, 3])
+    m = n if rng.random() < 0.6 else rng.choice([0, 1, 2, 3, 4, 5] if not valid else [1, 2, 3, 4, 5])
+    if name in ('orgqr', 'ungqr') and valid: m = max(m, n)
+    if name in ('orglq', 'unglq') and valid: n = max(m, n)
     tc = rng.choice('dz')
-    def jitter(v): return v if rng.random() < 0.8 else max(0, v + rng.choice([-2, -1, 1, 2]))
+    if valid and name in ('syev', 'syevd', 'syevx', 'syevr', 'sygv', 'ormqr', 'orgqr', 'ormlq', 'orglq'): tc = 'd'
+    kl, ku, kd = rng.choice([0, 1, 2]), rng.choice([0, 1, 2]), rng.choice([0, 1, 2])
+    side = rng.choice('LR')
+    p_bad = 0.0 if valid else 1.0
+    def jitter(v): return v if (valid or rng.random() < 0.8) else max(0, v + rng.choice([-2, -1, 1, 2]))
+    def other(t): return t if rng.random() >= 0.07 * p_bad else rng.choice('dzi')
+    present = {an for pos, (an, f) in enumerate(zip(sig['names'], sig['fmt'])) if f == 'O' and (pos < sig['required'] or rng.random() < 0.5)}
+    rows_of = {}
     args = {}
     for pos, (an, f) in enumerate(zip(sig['names'], sig['fmt'])):
         required = pos < sig['required']
         if f == 'O':
-            if not required and rng.random() < 0.5: continue
-            if an in ('ipiv', 'jpvt'): spec = ['i', jitter(max(m, n)), 1]
+            if an not in present: continue
+            if rng.random() < 0.02 * p_bad: args[an] = {'obj': 'int'}; continue          # not a matrix at all
+            if an in ('ipiv', 'jpvt'): spec = [other('i') if rng.random() >= 0.05 * p_bad else 'd', jitter(max(m, n)), 1]
             elif an in ('W', 'S', 'w'):
-                spec = [('z' if (an == 'w' or (an == 'W' and name.startswith('gg'))) else 'd') if rng.random() < 0.9 else tc, jitter(max(m, n)), 1]
-            elif an in ('tau', 'd', 'e', 'dl', 'du', 'du2', 'alpha', 'beta'):
-                ln = {'tau': min(m, n), 'd': n, 'e': n - 1, 'dl': n - 1, 'du': n - 1, 'du2': n - 2, 'alpha': n, 'beta': n}[an]
-                ttc = 'd' if (an == 'd' and name in ('ptsv', 'pttrf', 'pttrs')) else tc
-                spec = [ttc, jitter(max(ln, 0)), 1]
-            elif an == 'select': spec = None
-            elif an in ('B', 'C', 'X'): spec = [tc if rng.random() < 0.93 else rng.choice('dzi'), jitter(max(m, n) if name in ('gels',) else n), jitter(k)]
-            elif an in ('A', 'Ab') and name in ('gbsv', 'gbtrf', 'gbtrs', 'pbsv', 'pbtrf', 'pbtrs', 'tbtrs'):
-                spec = [tc, jitter(rng.choice([1, 2, 3, 4, 5])), jitter(n)]
-            else: spec = [tc if rng.random() < 0.93 else rng.choice('dzi'), jitter(m), jitter(n)]
-            args[an] = {'mat': spec}
+                wt = 'z' if (an == 'w' or (an == 'W' and name in ('gees',))) else 'd'
+                spec = [wt if rng.random() >= 0.1 * p_bad else tc, jitter(max(m, n)), 1]
+            elif an in ('tau', 'd', 'e', 'dl', 'du', 'du2', 'alpha', 'beta', 'a', 'b'):
+                ln = {'tau': min(m, n), 'd': n, 'e': n - 1, 'dl': n - 1, 'du': n - 1, 'du2': n - 2, 'alpha': n, 'beta': n, 'a': n, 'b': n}[an]
+                ttc = 'd' if (an == 'd' and name in ('ptsv', 'pttrf', 'pttrs')) else ('z' if an == 'a' else 'd' if an == 'b' else tc)
+                spec = [other(ttc), jitter(max(ln, 0)), 1]
+            elif an == 'select': args[an] = {'obj': 'none'}; continue
+            elif an in ('B', 'X') and name in ('sygv', 'hegv', 'gges'): spec = [other(tc), jitter(n), jitter(n)]
+            elif an == 'C': spec = [other(tc), jitter(m), jitter(n)]
+            elif an in ('B', 'X'): spec = [other(tc), jitter(max(m, n) if name in ('gels',) else n), jitter(k)]
+            elif an == 'A' and name in ('gbsv', 'gbtrf', 'gbtrs', 'pbsv', 'pbtrf', 'pbtrs', 'tbtrs'):
+                rows = {'gbsv': (2 * kl if 'ipiv' in present else kl) + ku + 1, 'gbtrf': 2 * kl + ku + 1, 'gbtrs': 2 * kl + ku + 1}.get(name, kd + 1)
+                spec = [tc, rows if valid else jitter(rng.choice([1, 2, 3, 4, 5])), jitter(n)]
+            elif an == 'A' and name in ('ormqr', 'unmqr'): spec = [other(tc), jitter(m if side == 'L' else n), jitter(min(m, n))]
+            elif an == 'A' and name in ('ormlq', 'unmlq'): spec = [other(tc), jitter(min(m, n)), jitter(m if side == 'L' else n)]
+            elif an == 'U': spec = [other(tc), jitter(m), jitter(m)]
+            elif an == 'Vt': spec = [other(tc), jitter(n), jitter(n)]
+            elif an in ('Z', 'V', 'Vl', 'Vr'): spec = [other(tc), jitter(n), jitter(n)]
+            else: spec = [other(tc), jitter(m), jitter(n)]
+            args[an] = {'mat': spec}; rows_of[an] = spec[1]
         elif f == 'i':
-            if required or rng.random() < 0.3: args[an] = {'int': rng.choice(INTVALS)}
+            if valid:
+                if an == 'kl': args[an] = {'int': kl}
+                elif an == 'ku' and (required or rng.random() < 0.5): args[an] = {'int': ku}
+                elif an == 'kd' and (required or rng.random() < 0.5): args[an] = {'int': kd}
+                elif an == 'itype' and rng.random() < 0.5: args[an] = {'int': rng.choice([1, 2, 3])}
+                elif an == 'm' and (required or rng.random() < 0.3): args[an] = {'int': m}
+                elif an == 'n' and (required or rng.random() < 0.3): args[an] = {'int': n}
+                elif an == 'k' and (required or rng.random() < 0.3): args[an] = {'int': min(m, n)}
+                elif an == 'il' and rng.random() < 0.5: args[an] = {'int': 1}
+                elif an == 'iu' and rng.random() < 0.5: args[an] = {'int': max(1, n - 1)}
+                elif an.startswith('ld') and rng.random() < 0.3:
+                    mt = an[2:]
+                    if mt in rows_of: args[an] = {'int': max(1, rows_of[mt]) + rng.choice([0, 0, 1, 3])}
+                elif required: args[an] = {'int': rng.choice([0, 1, 2])}
+            elif required or rng.random() < 0.3: args[an] = {'int': rng.choice(INTVALS)}
         elif f in 'cC':
             if required or rng.random() < 0.6:
                 opts = sig['chars'].get(an) or ['N', 'L', 'U', 'T', 'C', 'V', 'A', 'S', 'O', 'I', 'R']
-                args[an] = {'chr': rng.choice(opts) if rng.random() < 0.95 else 'X'}
+                if an == 'side': args[an] = {'chr': side if valid else rng.choice('LRX')}
+                elif valid and an == 'trans' and tc == 'z' and name in ('gels', 'unmqr', 'unmlq'): args[an] = {'chr': rng.choice('NC')}
+                elif valid and an == 'trans' and tc == 'd' and name in ('ormqr', 'ormlq'): args[an] = {'chr': rng.choice('NT')}
+                else: args[an] = {'chr': rng.choice(opts) if rng.random() >= 0.05 * p_bad else 'X'}
         elif f == 'd':
-            if required or rng.random() < 0.3: args[an] = {'flt': rng.choice([0.0, 1.0, -1.0, 2.5])}
-    return {'kind': 'lapack', 'id': cid, 'routine': name, 'args': args, 'order': sig['names'][:sig['required']]}
+            if required or rng.random() < 0.3: args[an] = {'flt': rng.choice([0.0, 1.0, -1.0, 2.0])}
+    if valid and 'side' not in args and any(a == 'side' for a in sig['names']):
+        args['side'] = {'chr': side}
+    # with a leading dimension larger than the number of rows the buffer has to be larger too: widen the matrices accordingly
+    if valid:
+        for an, v in list(args.items()):
+            if an.startswith('ld') and an[2:] in args and 'mat' in args[an[2:]]:
+                sp = args[an[2:]]['mat']; extra = v['int'] - max(1, sp[1])
+                if extra > 0: sp[1] += extra; 
+    return {'kind': 'lapack', 'id': cid, 'routine': name, 'args': args, 'order': sig['names'][:sig['required']], 'valid': valid}
+
+def model_env(r, sig, case):
+    """the variables the parsed prefix reads, for this call"""
+    env = {}
+    for v, d in r['ints'].items(): env[v] = d
+    for v, d in r['chars'].items(): env[v] = d
+    for an, f in zip(sig['names'], sig['fmt']):
+        cv = sig['cvar'][an]
+        a = case['args'].get(an)
+        if f == 'd': env[cv] = 0
+        if cv in r['mats']:
+            tc, m, n, ismat = 'd', 0, 0, False
+            if a is None: env[cv] = 0
+            elif 'mat' in a: env[cv] = 1; (tc, m, n), ismat = a['mat'], True
+            else: env[cv] = 1
+            env[(cv, 'isMat')] = ismat; env[(cv, 'isSp')] = False
+            env[(cv, 'id')] = 'idz'.index(tc); env[(cv, 'len')] = m * n; env[(cv, 'nrows')] = m; env[(cv, 'ncols')] = n
+        elif a is not None:
+            v = list(a.values())[0]
+            env[cv] = ord(v) if isinstance(v, str) else int(v)
+    env[('opaque', 'PyFunction_Check')] = False
+    return env
+
+def line_of(r, env):
+    parts = []
+    for k, v in env.items():
+        if isinstance(k, tuple):
+            if k[0] == 'opaque': parts.append('opq_%s=%d' % (k[1], int(v)))
+            else: parts.append('%s_%s=%d' % (k[0], k[1], int(v)))
+        elif k in r['mats']: parts.append('%s_given=%d' % (k, int(v)))
+        else: parts.append('%s=%d' % (k, int(v)))
+    return 'lapack %s %s' % (r['name'], ' '.join(parts))
 
 class Worker:
-    def __init__(self, build):
-        self.build = build; self.p = None
+    def __init__(self, build, slack=SLACK):
+        self.build = build; self.p = None; self.slack = slack
     def start(self):
         self.p = subprocess.Popen(['/venv/bin/python', os.path.join(vlib.VERIF, 'tools', 'corr', 'c19_worker2.py'), self.build],
-                                  stdin=subprocess.PIPE, stdout=subprocess.PIPE, stderr=subprocess.DEVNULL, text=True, bufsize=1)
+                                  stdin=subprocess.PIPE, stdout=subprocess.PIPE, stderr=subprocess.DEVNULL, text=True, bufsize=1,
+                                  env=dict(os.environ, CVXOPT_GUARD_SLACK=self.slack))
     def run(self, case):
         if self.p is None or self.p.poll() is not None: self.start()
         try:
@@ -89,23 +182,196 @@ class Worker:
         if self.p and self.p.poll() is None:
             self.p.stdin.close(); self.p.wait()
 
+def show(case):
+    return 'lapack.%s(%s)' % (case['routine'], ', '.join('%s=%s' % (k, list(v.values())[0]) for k, v in case['args'].items()))
+
+def parse_arity():
+    """static scan of every PyArg_ParseTupleAndKeywords call of src/C/*.c: the number of format units must equal the number of variables
+    (fewer variables than units: the parser stores through whatever is on the stack; more variables than units: keywords are bound to
+    the wrong variables, which the embedding probes of C18 exhibit).  Returns [(where, what, unsafe)]"""
+    import glob
+    bad = []
+    for path in sorted(glob.glob(os.path.join(vlib.REPO, 'src', 'C', '*.c'))):
+        src = open(path).read()
+        src = re.sub(r'/\*.*?\*/', ' ', src, flags=re.S)
+        for m in re.finditer(r'PyArg_ParseTupleAndKeywords\(\s*args\s*,\s*kwrds\s*,\s*"([^"]*)"\s*,\s*(\w+)\s*,(.*?)\)\)', src, flags=re.S):
+            fmt, kwname, rest = m.group(1), m.group(2), m.group(3)
+            core = re.split(r'[:;]', fmt)[0].replace('|', '').replace('$', '')
+            units = len(core)                                   # `O!` and `O&` are two characters and take two variables
+            nvars = len([v for v in rest.split(',') if v.strip()])
+            if nvars != units:
+                line = src[:m.start()].count('\n') + 1
+                bad.append(('%s:%d' % (os.path.basename(path), line), 'format "%s" has %d units but %d variables are passed' % (fmt, units, nvars), nvars < units))
+    return bad
+
+def translate(ctx):
+    import cwrap2lean
+    try:
+        t = cwrap2lean.gen_lapack_safety()
+        cwrap2lean.gen_lapack_driver(t)
+        ctx.table_lapack = t
+    except Exception as e:
+        return ['cwrap2lean (lapack.c): %s: %s' % (type(e).__name__, e)]
+    return []
+
+def overflow_case(r, sig, bigv, dimv, inc):
+    """the documented shapes for a dimv-sized problem, one leading dimension / offset replaced by a value near 2^31"""
+    args = {}
+    for pos, (an, f) in enumerate(zip(sig['names'], sig['fmt'])):
+        if f == 'O':
+            if an == 'select' or (pos >= sig['required'] and an not in ('Z', 'U', 'Vt')): continue
+            tc = 'i' if an in ('ipiv', 'jpvt') else 'd'
+            if an in ('w',) or (an == 'a'): tc = 'z'
+            args[an] = {'mat': [tc, dimv + 2, 1] if an in ('ipiv', 'jpvt', 'W', 'S', 'w', 'tau', 'd', 'e', 'dl', 'du', 'du2', 'a', 'b') else [tc, dimv + 2, dimv + 2]}
+        elif f == 'i' and an in ('n', 'm', 'k', 'nrhs'): args[an] = {'int': dimv}
+        elif f == 'i' and an in ('kl', 'ku', 'kd'): args[an] = {'int': 1}
+    args[inc] = {'int': bigv}
+    return {'kind': 'lapack', 'routine': r['name'], 'args': args, 'order': []}
+
 def lapack_probes(ctx, rng, gb):
+    import cwrap2lean
     sigs = signatures()
+    table = getattr(ctx, 'table_lapack', None) or cwrap2lean.gen_lapack()
+    byname = {r['name']: r for r in table}
     per = 25 if ctx.quick() else 700
     w = Worker(gb)
-    stat = {'ok': 0, 'exception': 0}
+    stat = {'ok': 0, 'exception': 0, 'model_reject': 0, 'model_none': 0, 'model_call': 0, 'library_overread': 0}
+    overreads = []; reached = {}
     cid = 3 * 10**6
+    lines, pyres = [], []
+    dis = 0
     try:
         for name, sig in sorted(sigs.items()):
+            r = byname.get(name)
             for it in range(per):
                 case = gen_case(rng, name, sig, cid); cid += 1
                 res = w.run(case)
                 if res.startswith('crash') or res == 'worker-died':
-                    ctx.violation('c19:wrapper-out-of-bounds:lapack.' + name, 'lapack.%s(%s) touches memory outside its buffers (%s)' % (
-                        name, ', '.join('%s=%s' % (k, list(v.values())[0]) for k, v in case['args'].items()), res), case)
-                elif res == 'ok': stat['ok'] += 1
-                else: stat['exception'] += 1
+                    # vectorised / strided kernels of the BLAS library read (never write) a little past the end of their operands; such a
+                    # read is not an access of the wrapper: the case is run again with a wide canary zone - a write anywhere in the zone or
+                    # an access beyond it still fails there
+                    w2 = Worker(gb, WIDE); res2 = w2.run(dict(case)); w2.close()
+                    if res2.startswith('crash') or res2 == 'worker-died':
+                        ctx.violation('c19:wrapper-out-of-bounds:lapack.' + name, '%s touches memory outside its buffers (%s)' % (show(case), res2), case)
+                        continue
+                    stat['library_overread'] += 1
+                    if len(overreads) < 5: overreads.append(show(case))
+                    res = res2
+                stat['ok' if res == 'ok' else 'exception'] += 1
+                if r is None: continue
+                env = model_env(r, sig, case)
+                try: ideal = cwrap2lean.eval_stmts(r['stmts'], dict(env), cint=False)
+                except (ZeroDivisionError, KeyError) as e:
+                    ctx.broke('evaluation of the translated checks of lapack.%s' % name, {'case': case, 'error': repr(e)}); continue
+                stat['model_' + ideal[0]] += 1
+                if ideal[0] == 'call' and res == 'ok': reached[name] = reached.get(name, 0) + 1
+                exp = ideal[1] if ideal[0] == 'reject' else 'ok' if ideal[0] == 'none' else None
+                if exp is not None and res != exp:
+                    dis += 1
+                    if dis <= 5:
+                        ctx.violation('c19:decision-differs:lapack.' + name, '%s: the real wrapper gives %s, the checks as translated give %s' % (show(case), res, exp),
+                                      {'case': case, 'real': res, 'model': exp})
+                if len(lines) < (4000 if ctx.quick() else 40000):
+                    lines.append(line_of(r, env)); pyres.append(ideal)
+        # overflow witnesses: per routine, the first tuple (fixed enumeration) that the C-int evaluation of the checks accepts while the
+        # ideal evaluation rejects, executed on the real build
+        wit = {}
+        for name, sig in sorted(sigs.items()):
+            r = byname.get(name)
+            if r is None: continue
+            cands = [an for an, f in zip(sig['names'], sig['fmt']) if f == 'i' and (an.startswith('ld') or an.startswith('offset') or an in ('oA', 'oB'))]
+            found = None
+            for bigv in (2**31 - 1, 2**30, 2**31 - 2):
+                for dimv in (3, 2, 5):
+                    for inc in cands:
+                        case = overflow_case(r, sig, bigv, dimv, inc)
+                        env = model_env(r, sig, case)
+                        try:
+                            ideal = cwrap2lean.eval_stmts(r['stmts'], dict(env), cint=False)
+                            cres = cwrap2lean.eval_stmts(r['stmts'], dict(env), cint=True)
+                        except (ZeroDivisionError, KeyError): continue
+                        if ideal[0] == 'reject' and cres[0] == 'call': found = case; break
+                    if found: break
+                if found: break
+            if not found: continue
+            found['id'] = cid; cid += 1
+            res = w.run(found)
+            wit[name] = [show(found), res]
+            if res.startswith('crash') or res == 'worker-died' or res == 'ok' or res == 'ArithmeticError':
+                ctx.violation('c19:int-overflow:lapack.' + name, '%s: %s -- the length test overflows in C int arithmetic and accepts a footprint outside the buffer'
+                              % (show(found), res), dict(found, result=res))
+        ctx.cov['lapack_overflow_witnesses'] = wit
     finally:
         w.close()
-    ctx.cov['lapack_probes'] = dict(stat, routines=len(sigs), per_routine=per)
+    # the generated Lean functions decide the same lines in the same way
+    if lines:
+        out = vlib.drive('C19L', lines)
+        bad = 0
+        for l, ideal, o in zip(lines, pyres, out):
+            lean = o.split(' ')
+            lean_cls = (lean[0] + ' ' + lean[1]) if lean[0] == 'reject' else lean[0]
+            py_cls = ('reject ' + ideal[1]) if ideal[0] == 'reject' else ideal[0]
+            if lean_cls != py_cls:
+                bad += 1
+                if bad <= 3: ctx.broke('generated Lean function vs Python evaluation of the same AST (lapack)', {'line': l, 'lean': o, 'python': py_cls})
+    ctx.cov['lapack_probes'] = dict(stat, overread_examples=overreads, routines_reaching_lapack=len(reached),
+                                    routines_never_reaching_lapack=sorted(set(sigs) - set(reached)), routines=len(sigs), per_routine=per, lean_lines=len(lines), decision_disagreements=dis)
     return stat['ok'] + stat['exception']
+
+
+DIMKW = ('m', 'n', 'k', 'nrhs', 'kl', 'ku', 'kd')
+
+def embed_probes(ctx, rng, build, prop):
+    """Embedding invariance of every wrapper: a documented call on plain matrices and the same call with every array argument placed in a
+    larger sentinel-filled buffer (offset 3, leading dimension rows + 2, all dimensions explicit) must return the same numbers in the
+    embedded positions, must not raise, and must leave every sentinel untouched (a write outside the documented footprint but inside the
+    buffer is invisible to guard pages)."""
+    import cwrap2lean
+    sigs = signatures()
+    table = getattr(ctx, 'table_lapack', None) or cwrap2lean.gen_lapack()
+    byname = {r['name']: r for r in table}
+    per = 12 if ctx.quick() else 300
+    w = Worker(build)
+    stat = {}
+    cid = 5 * 10**6
+    try:
+        for name, sig in sorted(sigs.items()):
+            r = byname.get(name)
+            if r is None: continue
+            done = 0; tries = 0
+            while done < per and tries < per * 12:
+                tries += 1
+                case = gen_case(rng, name, sig, cid)
+                if not case['valid'] or any(k.startswith('ld') or k.startswith('offset') or k in ('oA', 'oB') for k in case['args']): continue
+                env = model_env(r, sig, case)
+                try: ideal = cwrap2lean.eval_stmts(r['stmts'], dict(env), cint=False)
+                except (ZeroDivisionError, KeyError): continue
+                if ideal[0] != 'call': continue
+                fin = ideal[1]
+                emb = {}
+                for an, v in case['args'].items():
+                    if 'mat' not in v: continue
+                    offk = [k for k in ('offset' + an, 'o' + an) if k in sig['names']]
+                    if not offk: continue
+                    emb[an] = {'off': offk[0], 'ld': ('ld' + an) if ('ld' + an) in sig['names'] else None}
+                if not emb: break
+                dims = {k: int(fin[sig['cvar'][k]]) for k in DIMKW if k in sig['names'] and sig['fmt'][sig['names'].index(k)] == 'i'}
+                cid += 1; done += 1
+                c2 = {'kind': 'embed', 'id': cid, 'routine': name, 'args': {k: v for k, v in case['args'].items() if k not in dims}, 'dims': dims, 'emb': emb,
+                      'pad': rng.choice([1, 2, 3]), 'off': rng.choice([1, 2, 3, 5])}
+                res = w.run(c2)
+                key = res.split('-')[0] if res.startswith('skip') else res
+                stat[key] = stat.get(key, 0) + 1
+                if res.startswith('crash') or res == 'worker-died':
+                    ctx.violation('%s:embedded-call-faults:lapack.%s' % (prop.lower(), name), 'lapack.%s with its arguments embedded in larger buffers (offsets / leading dimensions) faults: %s; call %s'
+                                  % (name, res, show(case)), c2)
+                elif res.startswith('sentinel-changed'):
+                    ctx.violation('%s:writes-outside-footprint:lapack.%s' % (prop.lower(), name), 'lapack.%s wrote outside the documented block of `%s` (offset %d, leading dimension rows + %d): call %s'
+                                  % (name, res.split('-')[-1], c2['off'], c2['pad'], show(case)), c2)
+                elif prop == 'C18' and (res.startswith('result-differs') or res.startswith('embed-raises') or res == 'return-differs'):
+                    ctx.violation('c18:offset-ld-semantics:lapack.%s' % name, 'lapack.%s with offsets and leading dimensions does not compute what the plain call computes (%s): call %s, explicit %s'
+                                  % (name, res, show(case), dims), c2)
+    finally:
+        w.close()
+    ctx.cov['embedding_probes'] = dict(stat, per_routine=per)
+    return sum(stat.values())
